@@ -80,3 +80,8 @@ package transport
 //@   loop 0 modifies c.delivered, conn.in, c.invokeNum, bytes(buffer)
 //@   loop 1 modifies c.delivered, c.invokeNum
 //@   safety [C07]
+//
+// Re-establishing the connection of a client: connection state is not modelled (property C11 is not claimed).
+//@ func (*TarsClient).ReConnect
+//@   trusted
+//@   pure
